@@ -32,7 +32,7 @@
 From Verif Require Import Base Token Lex LexProofs Headers Blocks Pairing Fold ScanFile Spec
   SpecProofsDyck SpecProofsPairing SpecProofsFold SpecProofsCount SpecProofs
   Regex TokEngine HeaderSpec HeaderProofsDfa HeaderProofsSelect HeaderProofs SpecCheck
-  LexShapes ShapeProofs PySpec PySpecProofsLines PySpecProofs PySpecCheck PyLexical GenCompare TieProofs Grammar GrammarProofs GrammarAll GrammarAllProofsWf GrammarAllProofs PyGrammar PyGrammarProofs GrammarParse GrammarParseProofs.
+  LexShapes ShapeProofs PySpec PySpecProofsLines PySpecProofs PySpecCheck PyLexical GenCompare TieProofs Grammar GrammarProofs GrammarAll GrammarAllProofsWf GrammarAllProofs PyGrammar PyGrammarProofs GrammarParse GrammarParseProofs PyGrammarParse PyGrammarParseProofs.
 From Coq Require Import Sorted Permutation.
 
 Theorem C01_brace_pipeline_partial : forall (l : language) toks ds,
@@ -194,6 +194,16 @@ Theorem C01_grammar_python_meets_hypotheses : forall ts ds, py_canonical_program
   py_wf_descs ts ds /\ py_lexically_canonical ts ds.
 Proof. intros ts ds H. split; [exact (py_canonical_wf ts ds H)|exact (py_canonical_lexical ts ds H)]. Qed.
 
+(* the recogniser of the Python grammar (Scope/PyGrammarParse.v) is sound; for the programs it accepts the statement
+   holds with no descriptor-side hypothesis *)
+Theorem C01_grammar_python_recogniser_sound : forall (ts : list token) (ds : list pydesc),
+  py_parse_program ts = Some ds -> py_canonical_program ts ds.
+Proof. exact py_parse_program_sound. Qed.
+Theorem C01_recognised_python_programs : forall toks ds, let code := filter_tokens false toks in
+  py_parse_program code = Some ds -> StronglySorted pos_lt code -> filter_nocl_comment_tokens toks = [] ->
+  scan_file LPython toks = py_expected_all code ds ds.
+Proof. intros toks ds code Hp HS Hn. exact (C01_python_grammar toks ds (py_parse_program_sound code ds Hp) HS Hn). Qed.
+
 (* ---- the comparison operators of the hand-written scope model are the ones the source states: each is equal to
         the definition regenerated from TokenRange.py / Scope.py / scope_utils.py / Python.py on this run ---- *)
 Theorem C01_operators_tied :
@@ -251,6 +261,8 @@ Print Assumptions C01_python.
 Print Assumptions C01_python_blocks.
 Print Assumptions C01_grammar_recogniser_sound.
 Print Assumptions C01_recognised_programs.
+Print Assumptions C01_grammar_python_recogniser_sound.
+Print Assumptions C01_recognised_python_programs.
 Print Assumptions C01_python_hypotheses_decidable.
 Print Assumptions C01_c_pipeline_partial.
 Print Assumptions C01_blocks_are_dyck.
